@@ -69,6 +69,15 @@ func typeAssertNative(i *interpreter, instr *ssa.TypeAssert, itf iface, nt *nati
 	if idst, isI := instr.AssertedType.Underlying().(*types.Interface); isI {
 		if idst.NumMethods() == 0 {
 			ok = true
+		} else if nt == wrapErrT {
+			ok = true
+			for k := 0; k < idst.NumMethods(); k++ {
+				switch idst.Method(k).Name() {
+				case "Error", "Unwrap", "Cause", "StackTrace", "Format":
+				default:
+					ok = false
+				}
+			}
 		} else if nt == nativeErrorT || nt == symErrT {
 			// only the plain error interface is satisfied
 			ok = idst.NumMethods() == 1 && idst.Method(0).Name() == "Error"
@@ -457,6 +466,15 @@ func callIfaceNative(i *interpreter, fr *frame, meth string, args []value) value
 	case *symErr:
 		if meth == "Error" {
 			return r.msg
+		}
+	case *wrapErr:
+		switch meth {
+		case "Error":
+			return errorText(fr, r.inner)
+		case "Unwrap", "Cause":
+			return r.inner
+		case "StackTrace":
+			return []value{uintptr(1)}
 		}
 	case *ctxVal:
 		switch meth {
